@@ -177,6 +177,13 @@ def cadence(ctx, rule):
                                                for c_ in _ast.walk(n_))
                 if isinstance(n_, _ast.Call) and ctx.M.ext_name(g.mod, n_.func) in ('functools.partial',) and n_.args and isinstance(n_.args[0], _ast.Attribute) and n_.args[0].attr == 'append':
                     deferred = True
+    if app == 0 and not deferred:
+        # ... or handed to a record / helper object of the same module whose method does the two-argument append (observation.deliver())
+        import ast as _ast
+        for g in ctx.M.all_funcs():
+            if g.path == f2.path and g.qn != qn and g.cls is not None and g.cls is not f2.cls:
+                deferred = deferred or any(isinstance(c_, _ast.Call) and isinstance(c_.func, _ast.Attribute) and c_.func.attr == 'append' and len(c_.args) + len(c_.keywords) == 2
+                                           for c_ in _ast.walk(g.node))
     late = late_bound_loop_lambdas(ctx, qn) if deferred else []
     if late:
         ctx.violation(rule, 'every deferred update is applied to the signal and asset it was created for', late[0][0],
